@@ -101,6 +101,23 @@ def stmt_failure(desc, frame, peaks, v, offset, method, upsample=False):
                   close(o[3], base[3], 1e-3, sc, 'offset %s: elevations' % offset)):
             if f:
                 return f
+    # the batch entry points accept float peak lists (positions from a lattice): translating such a list by integers must act the same way
+    from libertem_blobfinder.common import correlation as cc
+    fn = cc.process_frames_fast if method == 'fast' else cc.process_frames_full
+    fracs = np.array([[0.5, 0.5], [0.25, 0.5], [0.5, 0.75], [0.0, 0.5]])[:len(peaks)]
+    pf = np.array(peaks, dtype=np.float64)[:len(fracs)] + fracs
+    pf = pf[(np.floor(pf + np.array(v)).min(axis=1) >= 0)]
+    if len(pf):
+        hb = fn(pattern, frame[np.newaxis], pf)
+        ht = fn(pattern, fr2[np.newaxis], pf + np.array(v, dtype=np.float64))
+        if np.array_equal(ht[0][0], hb[0][0] + np.array(v)):
+            for f in (close(ht[2][0], hb[2][0], rt, sc, 'translation by %s of a peak list with half-pixel positions %s: heights' % (v, pf.tolist())),
+                      close(ht[1][0], hb[1][0] + np.array(v, dtype=np.float64), rt, 1.0, 'translation by %s of a peak list with half-pixel positions %s: refined' % (v, pf.tolist()))):
+                if f:
+                    return f
+        elif close(ht[2][0], hb[2][0], 10 * rt, sc, 'h') is not None:
+            return 'translation by %s of a peak list with half-pixel positions %s: centres %s, expected %s, heights %s vs %s' % (
+                v, pf.tolist(), ht[0][0].tolist(), (hb[0][0] + np.array(v)).tolist(), ht[2][0].tolist(), hb[2][0].tolist())
     # offset on unsigned-integer frames whose darkest pixel is exactly 0 (raw counting-detector data): min - 1 must not wrap
     fi = frame - frame.min()
     if float(fi.max()) + offset < 2 ** 32 - 1 and np.array_equal(fi, np.rint(fi)):
